@@ -113,7 +113,9 @@ func (bpi *BucketPolicyItem) Validate(bucket string, iam IAMService) error {
 	for action := range bpi.Actions {
 		isObjectAction := action.IsObjectAction()
 		if isObjectAction == nil {
-			break
+			// s3:* fits any resource; the remaining actions of the
+			// statement still have to be checked (map order is random)
+			continue
 		}
 		if *isObjectAction && !containsObjectAction {
 			return policyErrResourceMismatch
